@@ -153,7 +153,7 @@ FsStep(m0, e) ==
          THEN [m1 EXCEPT !.files = Append(SelectSeq(@, LAMBDA f : f.ck # e.ck),
                                          [ck |-> e.ck, w |-> 0, d |-> 0, linked |-> TRUE, sf |-> FALSE]),
                         !.newck = Append(@, e.ck)]
-         ELSE [m1 EXCEPT !.faulted = TRUE]
+         ELSE m1
     [] e.call = "write" ->
          IF j = 0 THEN m1
          ELSE IF e.res = e.len
@@ -161,16 +161,16 @@ FsStep(m0, e) ==
                    THEN [m1 EXCEPT !.files[j].w = @ + e.len]
                    ELSE \* C11: the journal is append-only; a write anywhere else damages it
                         ViolKeep(m1, "C11", "write_not_at_end", e, [ck |-> e.ck, off |-> e.off, w |-> m1.files[j].w])
-              ELSE [m1 EXCEPT !.faulted = TRUE]
+              ELSE m1
     [] e.call \in {"fdatasync", "fsync"} ->
          IF j = 0 THEN m1
          ELSE IF e.res = 0 THEN [m1 EXCEPT !.files[j].d = m1.files[j].w]
-              ELSE [m1 EXCEPT !.files[j].sf = TRUE, !.faulted = TRUE]
+              ELSE [m1 EXCEPT !.files[j].sf = TRUE]
     [] e.call = "ftruncate" ->
          IF j = 0 \/ e.res # 0 THEN m1
          ELSE [m1 EXCEPT !.files[j].w = Min2(@, e.off), !.files[j].d = Min2(@, e.off)]
     [] e.call = "unlink" ->
-         IF e.res # 0 THEN [m1 EXCEPT !.faulted = TRUE]
+         IF e.res # 0 THEN m1
          ELSE
          LET m2 == Cnt(m1, "unlinks")
              linked == LinkedCks(m2)
@@ -454,7 +454,7 @@ OpenReturn(m0, e) ==
   ELSE
   LET o == e.obs
       m1 == [m EXCEPT !.open = TRUE, !.inst = @ + 1, !.cfg = m.pend.args, !.nacc0 = m.nacc,
-                      !.wl = Append(@, [label |-> e.wl, inst |-> m.inst + 1, dropped |-> FALSE]),
+                      !.wl = Append(@, [label |-> e.wl, inst |-> m.inst + 1, dropped |-> FALSE, acked |-> FALSE]),
                       !.pend = NoPend, !.pre = PreOf(o), !.wactive = FALSE, !.dropAcked = FALSE]
       openc == o.chunks[Len(o.chunks)]
   IN
@@ -498,7 +498,9 @@ DropReturn(m, e) ==
   LET allAcked == \A k \in 1..Len(m.fl) : (m.fl[k].inst = m.inst /\ m.fl[k].cb) => m.fl[k].st = "ok"
       flushedAll == \E k \in 1..Len(m.fl) : m.fl[k].inst = m.inst /\ m.fl[k].n = m.nacc /\ m.fl[k].st = "ok"
   IN [m EXCEPT !.open = FALSE, !.pend = NoPend,
-               !.wl = [k \in 1..Len(@) |-> IF @[k].inst = m.inst THEN [@[k] EXCEPT !.dropped = TRUE] ELSE @[k]],
+               !.wl = [k \in 1..Len(@) |-> IF @[k].inst = m.inst
+                                            THEN [@[k] EXCEPT !.dropped = TRUE, !.acked = allAcked /\ (flushedAll \/ m.nacc = m.nacc0)]
+                                            ELSE @[k]],
                !.dropAcked = allAcked /\ (flushedAll \/ m.nacc = m.nacc0)]
 
 FlushReturn(m0, e) ==
@@ -640,8 +642,7 @@ PtStep(m, e) ==
 FsAfterDrop(m, e) ==
   /\ e.t # "c"
   /\ e.call \in {"write", "unlink", "creat", "ftruncate"}
-  /\ \E k \in 1..Len(m.wl) : m.wl[k].label = e.t /\ m.wl[k].dropped
-  /\ m.dropAcked
+  /\ \E k \in 1..Len(m.wl) : m.wl[k].label = e.t /\ m.wl[k].dropped /\ m.wl[k].acked
 
 CrashStep(m, e) ==
   \* the directory is now the image described by e.img: [ck, keep, zeros, tail, synced, written]
